@@ -237,6 +237,7 @@ fn inputs_for(d: &Desc, rng: &mut Lcg) -> Vec<String> {
 }
 
 pub fn run(src: &str) -> Outcome {
+    crate::note_case("c11_spans", json!({"source": src}));
     let expected = "every name span reads the name in the text the user wrote".to_string();
     match catch_unwind(AssertUnwindSafe(|| check_spans(src))) {
         Err(_) => Outcome { fails: true, observed: "panic".into(), expected },
@@ -295,7 +296,7 @@ pub fn search(tag: &str, tier: &str) -> Option<Value> {
         }
     }
     if other.is_some() { return other; }
-    let n = if tier == "thorough" { 20000 } else { 2000 };
+    let n = if tier == "thorough" { 120000 } else { 20000 };   // (twenty thousand generated specifications take about ten seconds)
     for seed in 1..=n {
         let o = run_gen(seed);
         if o.fails { return Some(witness("c11_gen", json!({"seed": seed}), &o)); }
